@@ -198,8 +198,8 @@ func (s *Spy) Final() int {
 
 // Cfg configures one real websocket.Conn under test.
 type Cfg struct {
-	Client            bool `json:"client,omitempty"`   // role of this endpoint
-	Compress          bool `json:"compress,omitempty"` // permessage-deflate enabled locally (Upgrader/Options.EnableCompression) and, unless Negotiated says otherwise, negotiated
+	Client   bool `json:"client,omitempty"`   // role of this endpoint
+	Compress bool `json:"compress,omitempty"` // permessage-deflate enabled locally (Upgrader/Options.EnableCompression) and, unless Negotiated says otherwise, negotiated
 	// Negotiated separates what the handshake negotiated with this peer from the local setting:
 	// 0 = same as Compress, 1 = the extension was negotiated, -1 = it was not (the peer did not offer
 	// or accept it although it is enabled locally).
@@ -207,25 +207,25 @@ type Cfg struct {
 	// Alloc selects one of nbio's own allocators instead of the tracking one: AllocAligned
 	// (mempool.NewAligned(): an Append beyond the bucket capacity returns a NEW handle and frees
 	// the old one) or AllocSTD (mempool.NewSTD()). "" = the tracking allocator (Policy, Move).
-	Alloc string `json:"alloc,omitempty"`
-	Level             int  `json:"level,omitempty"`    // compression level (only with Compress)
-	F                 int  `json:"F,omitempty"`        // Engine.MaxWebsocketFramePayloadSize (0: default 32768)
-	L                 int  `json:"L,omitempty"`        // MessageLengthLimit (0: unlimited)
-	ReadLimit         int  `json:"read_limit,omitempty"`
-	Policy            int  `json:"policy,omitempty"` // track.Policy
-	NoOnMessage       bool `json:"no_on_message,omitempty"`
-	OnDataFrame       bool `json:"on_data_frame,omitempty"`
-	RecordCtl         bool `json:"record_ctl,omitempty"` // recording ping/close handlers that then act like the defaults
-	ReleasePayload    bool `json:"release_payload,omitempty"`
-	Blocking          bool `json:"blocking,omitempty"`
-	CloseAfterHandler bool `json:"close_after_handler,omitempty"` // CloseAndClean runs right after the handler that closed the conn (inline engine executor) instead of after Parse returns
-	Spy               bool `json:"spy,omitempty"`
-	Observe           bool `json:"observe,omitempty"` // call track.Use at conn.Write and in the callbacks (C11; linear in the number of freed buffers)
-	FailWriteAt       int  `json:"fail_write_at,omitempty"`
-	Move              bool `json:"move,omitempty"`           // the allocator moves a buffer that has to grow (like mempool.NewAligned)
-	Guard             bool `json:"guard,omitempty"`          // freed buffers become inaccessible memory instead of being poisoned (track guard mode); the caller sets debug.SetPanicOnFault on its goroutine, recovers around calls outside Parse and calls Endpoint.Release when the case is over
-	PanicAtEvent      int  `json:"panic_at_event,omitempty"` // the k-th callback (1-based) panics
-	ExecuteFalse      bool `json:"execute_false,omitempty"`  // Conn.Execute refuses every job (closed nbio.Conn)
+	Alloc             string `json:"alloc,omitempty"`
+	Level             int    `json:"level,omitempty"` // compression level (only with Compress)
+	F                 int    `json:"F,omitempty"`     // Engine.MaxWebsocketFramePayloadSize (0: default 32768)
+	L                 int    `json:"L,omitempty"`     // MessageLengthLimit (0: unlimited)
+	ReadLimit         int    `json:"read_limit,omitempty"`
+	Policy            int    `json:"policy,omitempty"` // track.Policy
+	NoOnMessage       bool   `json:"no_on_message,omitempty"`
+	OnDataFrame       bool   `json:"on_data_frame,omitempty"`
+	RecordCtl         bool   `json:"record_ctl,omitempty"` // recording ping/close handlers that then act like the defaults
+	ReleasePayload    bool   `json:"release_payload,omitempty"`
+	Blocking          bool   `json:"blocking,omitempty"`
+	CloseAfterHandler bool   `json:"close_after_handler,omitempty"` // CloseAndClean runs right after the handler that closed the conn (inline engine executor) instead of after Parse returns
+	Spy               bool   `json:"spy,omitempty"`
+	Observe           bool   `json:"observe,omitempty"` // call track.Use at conn.Write and in the callbacks (C11; linear in the number of freed buffers)
+	FailWriteAt       int    `json:"fail_write_at,omitempty"`
+	Move              bool   `json:"move,omitempty"`           // the allocator moves a buffer that has to grow (like mempool.NewAligned)
+	Guard             bool   `json:"guard,omitempty"`          // freed buffers become inaccessible memory instead of being poisoned (track guard mode); the caller sets debug.SetPanicOnFault on its goroutine, recovers around calls outside Parse and calls Endpoint.Release when the case is over
+	PanicAtEvent      int    `json:"panic_at_event,omitempty"` // the k-th callback (1-based) panics
+	ExecuteFalse      bool   `json:"execute_false,omitempty"`  // Conn.Execute refuses every job (closed nbio.Conn)
 	// Build is the construction path: "" = the Upgrader's Engine is the serving engine (limits and
 	// allocator configured there) and the Conn is built from it; "rebind" = the Upgrader is left as
 	// websocket.NewUpgrader() makes it (Engine = websocket.DefaultEngine with default limits), the
